@@ -407,6 +407,15 @@ def build_scenario(spec):
     return getattr(m, cls)(**kwargs)
 
 
+def variant(scn, suffix, **changes):
+    """The same scenario with some constructor arguments changed."""
+    mod, cls, kw = scn.spec()
+    kw = dict(kw)
+    kw.update(changes)
+    kw['name'] = scn.name + suffix
+    return build_scenario((mod, cls, kw))
+
+
 def run_replay(prop, path, quiet=False):
     doc = json.load(open(path))
     if 'doc' in doc and 'spec' not in doc:
